@@ -159,12 +159,28 @@ type chanv struct {
 	closed bool
 	timer  bool // made by time.After / time.NewTimer: ready only when nothing else is
 	peer   bool // harness declared a concurrent peer: sends never block, values are dropped
+	async  bool // unbuffered channel used between interpreted goroutines (one rendezvous slot)
 	name   string
 }
 
 type blockEvent struct {
 	op string
 	ch *chanv
+}
+
+// canSend: buffered channels take a value while there is room. An unbuffered
+// channel is modelled with one rendezvous slot: the sender deposits its value
+// and continues, the receiver takes it later (a relaxation: the sender does
+// not wait for the receiver to arrive; with one schedule executed this only
+// changes *when* the sender continues).
+func (c *chanv) canSend() bool {
+	if c.peer {
+		return true
+	}
+	if c.cap == 0 {
+		return len(c.buf) == 0 && c.async
+	}
+	return len(c.buf) < c.cap
 }
 
 func (i *interpreter) chanSend(c *chanv, v value) {
@@ -174,8 +190,18 @@ func (i *interpreter) chanSend(c *chanv, v value) {
 	if c.closed {
 		panic(runtimePanic{"send on closed channel"})
 	}
-	if len(c.buf) >= c.cap && !c.peer {
-		panic(blockEvent{"send", c})
+	if c.cap == 0 && !c.peer {
+		// rendezvous slot only between interpreted goroutines
+		c.async = len(i.gors) > 1
+	}
+	i.blockUntil(func() bool {
+		if c.closed {
+			panic(runtimePanic{"send on closed channel"})
+		}
+		return c.canSend()
+	}, "send", c)
+	if c.peer {
+		return // a concurrent peer (declared by the harness) takes the value
 	}
 	old := c.buf
 	i.logUndo(func() { c.buf = old })
@@ -188,20 +214,32 @@ func (i *interpreter) chanRecv(c *chanv, elem types.Type) (value, bool) {
 	if c == nil {
 		panic(blockEvent{"receive from nil channel", c})
 	}
-	if len(c.buf) > 0 {
-		old := c.buf
-		i.logUndo(func() { c.buf = old })
-		v := c.buf[0]
-		c.buf = c.buf[1:]
-		return v, true
-	}
-	if c.closed {
-		return zero(elem), false
-	}
-	if c.timer {
-		return zero(elem), true
-	}
-	panic(blockEvent{"receive", c})
+	var v value
+	ok := false
+	timerFired := false
+	i.blockUntilOr(func() bool {
+		if len(c.buf) > 0 {
+			old := c.buf
+			i.logUndo(func() { c.buf = old })
+			v, ok = c.buf[0], true
+			c.buf = c.buf[1:]
+			return true
+		}
+		if c.closed {
+			v, ok = zero(elem), false
+			return true
+		}
+		return false
+	}, func() bool {
+		// nobody can make progress: a timer channel fires now
+		if c.timer {
+			v, ok, timerFired = zero(elem), true, true
+			return true
+		}
+		return false
+	}, "receive", c)
+	_ = timerFired
+	return v, ok
 }
 
 func (i *interpreter) chanClose(c *chanv) {
